@@ -155,12 +155,26 @@ mod c05 {
     /// `Fabrics::allow`: PASE accessors are always allowed; everybody else exactly when the accessor
     /// has a fabric, that fabric exists and its list allows. Table of 0..=MAX_FABRICS fabrics with
     /// pairwise distinct indices (representation invariant kept by `add_with_post_init`).
-    // TIER: quick
+    // TIER: thorough
     // KIND: complete
     #[kani::proof]
     #[kani::unwind(7)]
     #[kani::stub(crate::fabric::Fabric::allow, fabric_allow_by_contract)]
     fn c05_fabrics_allow_dispatch() {
+        check_fabrics_allow_dispatch(NF);
+    }
+
+    /// The same contract on a table of at most 2 fabrics (any indices, any order): cheap enough for the quick tier.
+    // TIER: quick
+    // KIND: bounded (table of at most 2 of MAX_FABRICS fabrics)
+    #[kani::proof]
+    #[kani::unwind(7)]
+    #[kani::stub(crate::fabric::Fabric::allow, fabric_allow_by_contract)]
+    fn c05_fabrics_allow_dispatch_2() {
+        check_fabrics_allow_dispatch(2);
+    }
+
+    fn check_fabrics_allow_dispatch(nmax: usize) {
         let matter = MATTER;
         let acc_fab: u8 = kani::any();
         let acc_auth = any_auth();
@@ -174,7 +188,7 @@ mod c05 {
         let aux: bool = kani::any();
 
         let n: usize = kani::any();
-        kani::assume(n <= NF);
+        kani::assume(n <= nmax);
         let idx: [u8; NF] = kani::any();
         let mut i = 0;
         while i < NF {
@@ -188,7 +202,7 @@ mod c05 {
         }
         let mut table: Vec<Fabric, NF> = Vec::new();
         let mut i = 0;
-        while i < NF {
+        while i < nmax {
             let _ = table.push(minimal_fabric(NonZeroU8::new(idx[i]).unwrap(), 0));
             i += 1;
         }
